@@ -310,7 +310,27 @@ fn run_once(sc: &PairScenario, inj: Option<&[Injection]>) -> RunOut {
                     recent += 1;
                 }
                 let f = Frame::AckFrame(AckFrame { frame_window_base_id: fb, packet_window_base_id: pb, frame_acks: groups });
-                sim.handle_bytes(e, &f.write());
+                let mut bytes = f.write().to_vec();
+                // every second forged frame spells a set group nonce with another non-zero byte (the nonce occupies a
+                // whole byte on the wire and any non-zero value means 1: what another implementation may send)
+                if (ii + k) % 2 == 0 {
+                    let n_groups = (bytes.len() - 15) / 9;
+                    let mut changed = false;
+                    for g in 0..n_groups {
+                        let off = 11 + 9 * g + 8;
+                        if bytes[off] != 0 {
+                            bytes[off] = [0x02u8, 0x80, 0xFE, 0x10][(ii + g) % 4];
+                            changed = true;
+                        }
+                    }
+                    if changed {
+                        let n = bytes.len();
+                        let c = uflow::verif::crc32(&bytes[..n - 4]);
+                        bytes[n - 4..].copy_from_slice(&c.to_be_bytes());
+                        classes.push("group_nonce_spelled_with_another_nonzero_byte");
+                    }
+                }
+                sim.handle_bytes(e, &bytes);
                 injected += 1;
             }
         }
@@ -388,7 +408,7 @@ impl Check for C15 {
     }
 
     fn rule(&self) -> String {
-        "case = SimPair scenario + list of injections; the scenario is run twice with identical clock and nonce streams, the second time additionally handing the senders, between ticks, ack frames that must be inert: genuine earlier ack groups replayed (any age), groups over really-sent frames with the nonce inverted (any bitfield, including ones that do not claim their own base frame), groups ahead of / far behind the frame log, groups mixing sent and never-sent ids, groups over ids that differ from really-sent frames by a multiple of 2^16 / 2^20 / 2^24 / 2^31 (with the parity of the frames they would alias), groups using all 32 positions whose last position alone makes them invalid (never-sent frame, or a sent frame whose nonce spoils the parity), network duplicates of genuine ack frames arriving right behind the original (same step interval) or up to 2 s later, and genuine ack frames whose groups additionally claim frames the sender has already seen acknowledged (repeated acknowledgements bundled with fresh ones; only frames still in the sender's log, with the nonce adjusted, never gaining a rate-limited frame); ack frames without groups whose frame window base lies 1..5000 (or k x 2^16/20/31) beyond the newest frame sent, or behind the base already reported; ack frames without groups whose frame window base claims frames never sent while their packet window base acknowledges outstanding packets; ack frames without groups whose PACKET window base names a packet not sent yet (1..3, rarely up to 3000, beyond the next packet id; read through the hook); every other forged frame carries the window bases of the latest genuine ack that endpoint handled, so it cannot move a window. Oracle: both runs emit byte-identical frames at identical virtual times and report identical rtt_s(), allowed rate, is_send_pending(), send_buffer_size() and queue lengths at every snapshot, and deliver identically. Non-trivial = at least one injected group referred to a frame sent within the last virtual second. Distinct = distinct serialised case.".into()
+        "case = SimPair scenario + list of injections; the scenario is run twice with identical clock and nonce streams, the second time additionally handing the senders, between ticks, ack frames that must be inert: genuine earlier ack groups replayed (any age), groups over really-sent frames with the nonce inverted (any bitfield, including ones that do not claim their own base frame), groups ahead of / far behind the frame log, groups mixing sent and never-sent ids, groups over ids that differ from really-sent frames by a multiple of 2^16 / 2^20 / 2^24 / 2^31 (with the parity of the frames they would alias), groups using all 32 positions whose last position alone makes them invalid (never-sent frame, or a sent frame whose nonce spoils the parity), network duplicates of genuine ack frames arriving right behind the original (same step interval) or up to 2 s later, and genuine ack frames whose groups additionally claim frames the sender has already seen acknowledged (repeated acknowledgements bundled with fresh ones; only frames still in the sender's log, with the nonce adjusted, never gaining a rate-limited frame); ack frames without groups whose frame window base lies 1..5000 (or k x 2^16/20/31) beyond the newest frame sent, or behind the base already reported; ack frames without groups whose frame window base claims frames never sent while their packet window base acknowledges outstanding packets; ack frames without groups whose PACKET window base names a packet not sent yet (1..3, rarely up to 3000, beyond the next packet id; read through the hook); every other forged frame carries the window bases of the latest genuine ack that endpoint handled, so it cannot move a window. (Every second forged frame spells a set group nonce with a non-zero byte other than 1.) Oracle: both runs emit byte-identical frames at identical virtual times and report identical rtt_s(), allowed rate, is_send_pending(), send_buffer_size() and queue lengths at every snapshot, and deliver identically. Non-trivial = at least one injected group referred to a frame sent within the last virtual second. Distinct = distinct serialised case.".into()
     }
 
     fn assumptions(&self) -> Vec<String> {
